@@ -147,20 +147,23 @@ class CacheView(Table):
         self.cachecomplete = False
 
     def clearcache(self):
-        self.cache = list()
+        # N.B., clear in place, running iterators hold on to the list
+        del self.cache[:]
         self.cachecomplete = False
 
     def __iter__(self):
 
         # serve whatever is in the cache first
+        position = 0
         for row in self.cache:
             yield row
+            position += 1
 
         if not self.cachecomplete:
 
-            # serve the remainder from the inner iterator
+            # serve the remainder from the inner iterator, N.B., from this
+            # iterator's own position, the cache may have been cleared
             it = iter(self.inner)
-            position = len(self.cache)
             for row in islice(it, position, None):
                 # maybe there's more room in the cache? N.B., only append if
                 # no other iterator has cached this row already
@@ -171,5 +174,6 @@ class CacheView(Table):
                 yield row
 
             # does the cache contain a complete copy of the inner table?
-            if not self.n or len(self.cache) < self.n:
+            if position == len(self.cache) \
+                    and (not self.n or len(self.cache) < self.n):
                 self.cachecomplete = True
